@@ -1131,6 +1131,18 @@ pub fn scenario_segment<Ix: SIx>(ixname: &str, stable: bool, directed: bool, rng
                 if !ln.is_empty() { d.apply(&json!({"op":"remove_node","a":ln[rng.below(ln.len())]}), log, rng); }
             }
         }
+        // probe every vacant (or just out-of-range) index as an endpoint of the fallible edge calls: they must answer
+        // Err / None and change nothing, whatever the vacant slot's recycled link fields happen to contain
+        let (_, _, nb0, _) = d.counts();
+        let live0 = d.live_nodes();
+        let vac: Vec<usize> = (0..=nb0.min(ixmax)).filter(|i| !live0.contains(i)).collect();
+        for &a in vac.iter().take(3) {
+            for b in 0..=nb0.min(ixmax).min(4) {
+                let (x, y) = if rng.chance(1, 2) { (a, b) } else { (b, a) };
+                d.apply(&json!({"op": *rng.pick(&["try_update_edge", "try_add_edge", "try_update_edge"]),"a":x,"b":y}), log, rng);
+            }
+        }
+        if !vac.is_empty() { d.apply(&json!({"op":"obs"}), log, rng); }
         // one whole-graph operation
         let m = 2 + rng.below(3);
         let op = match rng.below(9) {
